@@ -967,7 +967,7 @@ def r2_line_kinds(corpus: Corpus, rep: Report, tier: str):
                 lk, rk = K.kind(n.left, fi), K.kind(n.right, fi)
                 if not ((lk | rk) & LINE):
                     continue
-                k = uniq(f"{fi.fq}|arith|{short(n, 70)}")
+                k = uniq(f"{_key_owner(corpus, fi).fq}|arith|{short(n, 70)}")
                 if K.mixes(lk, rk):
                     chside = n.left if CH in lk else n.right
                     rep.violation(R2, k, fi.module.site(n), f"`{short(n, 60)}` adds the character index `{short(chside, 40)}` to a line quantity")
@@ -978,17 +978,17 @@ def r2_line_kinds(corpus: Corpus, rep: Report, tier: str):
                 vk = K.kind(n.value, fi)
                 if not ((tk | vk) & LINE):
                     continue
-                k = uniq(f"{fi.fq}|arith|{short(n, 70)}")
+                k = uniq(f"{_key_owner(corpus, fi).fq}|arith|{short(n, 70)}")
                 if K.mixes(tk, vk):
                     rep.violation(R2, k, fi.module.site(n), f"`{short(n, 60)}`: `{n.target.id}` counts lines ({sorted(tk & LINE)}) but `{short(n.value, 40)}` is a character index/length")
                 else:
                     rep.ok(R2, k, fi.module.site(n), f"{sorted(tk)} {'+=' if isinstance(n.op, ast.Add) else '-='} {sorted(vk) or '?'}")
             elif isinstance(n, ast.keyword) and n.arg in ("line", "lineno", "content_offset", "input_offset") and CH in K.kind(n.value, fi):
-                rep.violation(R2, uniq(f"{fi.fq}|sink|{n.arg}={short(n.value, 50)}"), fi.module.site(n.value), f"a character index reaches the line argument `{n.arg}=`")
+                rep.violation(R2, uniq(f"{_key_owner(corpus, fi).fq}|sink|{n.arg}={short(n.value, 50)}"), fi.module.site(n.value), f"a character index reaches the line argument `{n.arg}=`")
             elif isinstance(n, ast.Assign):
                 for t in _store_targets(n):
                     if isinstance(t, ast.Attribute) and t.attr == "line" and CH in K.kind(n.value, fi):
-                        rep.violation(R2, uniq(f"{fi.fq}|sink|{short(n, 60)}"), fi.module.site(n), "a character index is stored as a node line")
+                        rep.violation(R2, uniq(f"{_key_owner(corpus, fi).fq}|sink|{short(n, 60)}"), fi.module.site(n), "a character index is stored as a node line")
     # ---- (b) call-site conventions
     seen_conv = set()
     for sink_fq, (idx, kwname) in LINE_SINKS.items():
@@ -1143,7 +1143,7 @@ def r2_line_kinds(corpus: Corpus, rep: Report, tier: str):
                 kinds = [kk for _, kk, _ in terms]
                 if not (set(kinds) & LINE):
                     continue
-                k = uniq(f"{fi.fq}|line-sink|{text}")
+                k = uniq(f"{_key_owner(corpus, fi).fq}|line-sink|{text}")
                 if kinds.count(L1) == 1 and OFF in kinds and const != 1 and all(s > 0 for s, _, _ in terms):
                     rep.violation(R2, k, fi.module.site(e), f"`{short(e, 50)}` = L1(directive line) + content offset {const:+d} is the number of lines BEFORE the target line; as a node/warning line it is one too low (docutils: lineno = 1 + line_offset)")
                 else:
@@ -1185,7 +1185,7 @@ def r2_line_kinds(corpus: Corpus, rep: Report, tier: str):
             if norm in done:
                 continue
             done.add(norm)
-            k = uniq(f"{fi.fq}|content offset|{norm}")
+            k = uniq(f"{_key_owner(corpus, fi).fq}|content offset|{norm}")
             if any(kk == OFF for _s, kk, _t in terms):
                 rep.ok(R2, k, fi.module.site(e), f"includes the content offset `{off_params[0]}`")
             elif others or const != 0:
@@ -1196,7 +1196,7 @@ def r2_line_kinds(corpus: Corpus, rep: Report, tier: str):
             co = kwarg(n, "content_offset")
             if co is None or kwarg(n, "lineno") is None or kwarg(n, "state") is None:
                 continue
-            k = uniq(f"{fi.fq}|directive content_offset={short(co, 40)}")
+            k = uniq(f"{_key_owner(corpus, fi).fq}|directive content_offset={short(co, 40)}")
             site = fi.module.site(co)
             try:
                 terms, const = K.linear(co, fi)
